@@ -1,6 +1,39 @@
 package main
 
-import "strings"
+import (
+	"go/ast"
+	"strings"
+)
+
+// ifExitsTop: for every if statement of the function outside closures, "<cond> -> <how its body ends>"
+// (return / continue / break / goes on)
+func ifExitsTop(rel, fn string) []string {
+	fd := funcDecl(rel, fn)
+	f := load(rel)
+	if fd == nil || f == nil {
+		return nil
+	}
+	var out []string
+	ast.Inspect(fd.Body, func(n ast.Node) bool {
+		if _, ok := n.(*ast.FuncLit); ok {
+			return false
+		}
+		if is, ok := n.(*ast.IfStmt); ok {
+			how := "goes on"
+			if k := len(is.Body.List); k > 0 {
+				switch st := is.Body.List[k-1].(type) {
+				case *ast.ReturnStmt:
+					how = "return"
+				case *ast.BranchStmt:
+					how = st.Tok.String()
+				}
+			}
+			out = append(out, exprStr(f.fset, is.Cond)+" -> "+how)
+		}
+		return true
+	})
+	return out
+}
 
 func filterContains(xs []string, subs ...string) []string {
 	var out []string
@@ -27,6 +60,7 @@ func init() {
 		g.raw("def scanEdgePoints : List String := " + leanStrList(callsOf(rel, "scan", "EdgePoints")))
 		g.raw("def scanStops : List String := " + leanStrList(callsOf(rel, "scan", "stop")))
 		g.raw("def scanRanges : List String := " + leanStrList(rangeExprs(rel, "scan")))
+		g.raw("def scanIfExits : List String := " + leanStrList(ifExitsTop(rel, "scan")))
 		g.raw("def scanNew : List String := " + leanStrList(callsOf(rel, "scan", "newClientState")))
 		g.raw("def scanHelperGetNodes : List String := " + leanStrList(callsOf(rel, "scanHelper", "GetNodes")))
 		g.raw("def scanHelperRanges : List String := " + leanStrList(rangeExprs(rel, "scanHelper")))
